@@ -190,6 +190,11 @@ def run(ctx):
         wellformed(ctx, q, key, entries, T)
         # ---- snapshot
         snapshot_diff(ctx, key, entries, T)
+    # the names the tables are asked with: `Op`'s variants AND its alias constants carry the pinned numbers (C08's leg, for Op)
+    import c08
+    import tables as _tables
+    enums_, masks_ = _tables.spirv_decls()
+    c08.snapshot_agreement(ctx, rp, enums_, masks_, only=("Op", "GLOp", "CLOp"))
     rp.close()
     ctx.extra["cvc5"] = q.summary()
     ctx.extra["entries"] = {k: len(T[k]) for k in ("core", "glsl", "opencl")}
